@@ -23,7 +23,9 @@ RULE = ("A case is one history on a fresh in-process regtest node: ~104 base blo
 ASSUMPTIONS = [
     "which chain is active is read from the node (chain selection is C08); blocks, transactions and the UTXO replay are the harness' own",
     "the vendored Python test framework (block/tx deserialization, SipHash, MuHash3072 arithmetic) is independent of the C++ code",
-    "a synced index is stopped like a clean shutdown (queue drained, chainstate flushed, locator committed); unclean kills are C16",
+    "a synced index is stopped like a clean shutdown (queue drained, chainstate flushed, ChainStateFlushed -> locator commit); unclean kills are C16",
+    "violations seen after an index was stopped in a state where BaseIndex::Commit() is skipped (interrupted initial sync, or best block ahead of "
+    "the flushed tip after invalidateblock) carry the suffix -after-uncommitted-stop so that they can be told apart from plain reorg bugs",
     "the genesis transaction is not indexed by txindex (documented exclusion); stale-branch transactions may still be found by FindTx",
 ]
 REQUIRED = ["reorgs_indexed", "restarts", "stops_mid_sync", "reorg_while_behind", "late_starts", "sync_racing_blocks", "txindex_lookups",
@@ -75,6 +77,9 @@ def check(rec, st):
             st.violation("log-inconsistent", "active chain length differs between engine model and Python", {"engine": rec["heights"], "python": len(chain)}, case)
             return
         bad = 0
+        unc = rec.get("uncommitted", [])
+        sfx_f = "-after-uncommitted-stop" if "blockfilter" in unc else ""
+        sfx_c = "-after-uncommitted-stop" if "coinstats" in unc else ""
         if "filters" in rec:
             for h, (bh, f) in enumerate(zip(chain, rec["filters"])):
                 if f is None:
@@ -84,12 +89,12 @@ def check(rec, st):
                 if bytes.fromhex(f[0]) != s.filter:
                     bad += 1
                     if bad <= 3:
-                        st.violation("filter-differs-bip158", "stored filter differs from the Python BIP158 recomputation",
+                        st.violation("filter-differs-bip158" + sfx_f, "stored filter differs from the Python BIP158 recomputation",
                                      {"cp": rec["cp"], "height": h, "block": bh, "stored": f[0], "python": s.filter.hex()}, case)
                 elif bytes.fromhex(f[1]) != s.fheader:
                     bad += 1
                     if bad <= 3:
-                        st.violation("filter-header-chain", "stored filter header differs from the recomputed header chain",
+                        st.violation("filter-header-chain" + sfx_f, "stored filter header differs from the recomputed header chain",
                                      {"cp": rec["cp"], "height": h, "block": bh, "stored": f[1], "python": s.fheader.hex()}, case)
         if "stats" in rec:
             for h, (bh, x) in enumerate(zip(chain, rec["stats"])):
@@ -104,13 +109,13 @@ def check(rec, st):
                 got = [x[0], x[1], x[2], x[3], x[4], int(x[5], 16), int(x[6], 16), int(x[7], 16), x[8], x[9], x[10], x[11]]
                 st.seen("stats_recomputed")
                 if x[12] != bh:
-                    st.violation("coinstats-wrong-block", "statistics entry belongs to another block", {"cp": rec["cp"], "height": h, "want": bh, "got": x[12]}, case)
+                    st.violation("coinstats-wrong-block" + sfx_c, "statistics entry belongs to another block", {"cp": rec["cp"], "height": h, "want": bh, "got": x[12]}, case)
                 diff = [n for n, g, w in zip(STAT_NAMES, got, want) if g != w]
                 if diff:
                     bad += 1
                     if bad <= 3:
                         key = "coinstats-muhash" if "muhash" in diff else "coinstats-count-amount" if set(diff) & {"count", "amount", "bogo"} else "coinstats-tallies"
-                        st.violation(key, "CoinStatsIndex differs from the from-scratch computation in: " + ",".join(diff),
+                        st.violation(key + sfx_c, "CoinStatsIndex differs from the from-scratch computation in: " + ",".join(diff),
                                      {"cp": rec["cp"], "height": h, "block": bh, "index": dict(zip(STAT_NAMES, got)), "python": dict(zip(STAT_NAMES, want))}, case)
             if "scan_muhash" in rec:
                 r = memo[chain[-1]]
